@@ -144,11 +144,16 @@ Proof.
     { intros k. destruct (T k) as [T1 T2].
       destruct (Z_le_dec 0 k); [destruct (Z_lt_dec k (zlen es)); [specialize (T1 (conj l l0)); lia|]|]; rewrite T2; lia. }
     unfold pol_inv. cbn [qinit q_ordering q_data q_complete].
+    assert (E0 : zrange (fun i => i) 0 (zlen es) = [] -> forall k, trials_of es k <= 0).
+    { intros E k. destruct (T k) as [T1 T2].
+      destruct (Z_le_dec 0 k); [destruct (Z_lt_dec k (zlen es)); [|rewrite T2; lia]|rewrite T2; lia].
+      assert (Hin : In k (zrange (fun i => i) 0 (zlen es))) by (apply In_zrange_id; [apply zlen_nonneg|lia]).
+      rewrite E in Hin. destruct Hin. }
     destruct p.
     + split; [apply NoDup_zr_id|]. split; assumption.
-    + split; [discriminate|]. intros _. exact N.
+    + split; [intros [H|H]; [discriminate|apply E0; exact H]|]. intros _. exact N.
     + split; [apply NoDup_zr_id|]. split; assumption.
-    + discriminate.
+    + intros [H|H]; [discriminate|apply E0; exact H].
     + intros k Hk. apply O. lia.
 Qed.
 
@@ -483,12 +488,25 @@ Proof.
       - intros k. rewrite In_requeue_ord, T, IO, <- countZ_pos_In.
         specialize (NN k). pose proof (countZ_nonneg k l). lia.
       - intros k. rewrite T. specialize (NN k). pose proof (countZ_nonneg k l). lia. }
+    assert (OE : (q_complete q = true \/ q_ordering q = [] -> forall k, trials_of (q_data q) k <= 0) ->
+                 all_done d2 = true \/ requeue_ord l (q_ordering q) = [] -> forall k, trials_of d2 k <= 0).
+    { intros Old [C|C]; [apply all_done_iff; exact C|]. intros k. rewrite T.
+      assert (Onil : q_ordering q = []).
+      { destruct (q_ordering q) as [|x o'] eqn:EO; [reflexivity|]. exfalso.
+        assert (Hx : In x (requeue_ord l (x :: o'))) by (apply In_requeue_ord; right; left; reflexivity).
+        try rewrite EO in C. rewrite C in Hx. destruct Hx. }
+      assert (Cz : countZ k l = 0).
+      { pose proof (countZ_nonneg k l). destruct (Z_lt_dec 0 (countZ k l)) as [Hc|Hc]; [|lia]. exfalso.
+        apply countZ_pos_In in Hc.
+        assert (Hx : In k (requeue_ord l (q_ordering q))) by (apply In_requeue_ord; left; exact Hc).
+        rewrite C in Hx. destruct Hx. }
+      specialize (Old (or_intror Onil) k). lia. }
     rewrite I1. destruct p.
     + apply FR. exact I8.
-    + destruct I8 as [_ I8]. split; [intros C; apply all_done_iff; exact C|].
+    + destruct I8 as [I8a I8]. split; [apply OE; exact I8a|].
       intros K k. rewrite T. specialize (I8 K k). pose proof (countZ_nonneg k l). lia.
     + apply FR. exact I8.
-    + intros C. apply all_done_iff. exact C.
+    + apply OE. exact I8.
     + intros k Hk. rewrite T in Hk. apply In_requeue_ord.
       destruct (Z_lt_dec 0 (countZ k l)); [left; apply countZ_pos_In; assumption|].
       right. apply I8. lia.
